@@ -59,10 +59,68 @@ def width(bits):
     return len(bits) - bits.index(1) if 1 in bits else 0
 
 
-def mk(bits):
+def mk0(bits):
     """the real Bitset with these bits: value and explicit length (length 0 can only be Bitset(0))"""
     Bitset, _ = impl()
     return Bitset(b2i(bits), len(bits))
+
+
+# Provenance of the operands.  For the model an operand is its bits; the real object may carry more (cached masks, widths
+# set after the fact).  A call spec with "via" gets its operands not from the constructor but as the RESULT of another
+# public operation that yields exactly these bits; the call recorded for TLC is the same call on the same bits.
+VIAS = ("and1", "or0", "xor0", "notnot", "concat", "higher", "lower", "shl0", "from_seq", "new_bits", "half", "xorxor", "shr0")
+_VIA = [None]
+
+
+def _via(bits, how):
+    Bitset, bu = impl()
+    n = len(bits)
+    ones, zeros = [1] * n, [0] * n
+    if how == "and1":
+        return mk0(bits) & mk0(ones)
+    if how == "or0":
+        return mk0(bits) | mk0(zeros)
+    if how == "xor0":
+        return mk0(bits) ^ mk0(zeros)
+    if how == "notnot":
+        return ~(~mk0(bits))
+    if how == "xorxor":
+        return (mk0(bits) ^ mk0(ones)) ^ mk0(ones)
+    if how == "concat":
+        return mk0(bits[:n // 2]).concat(mk0(bits[n // 2:]))
+    if how == "higher":
+        return mk0(list(bits) + [1, 0, 1]).get_higher_bits(n)
+    if how == "lower":
+        return mk0([1, 0, 1] + list(bits)).get_lower_bits(n)
+    if how == "shl0":
+        return mk0(bits) << 0
+    if how == "shr0":
+        return mk0(bits) >> 0
+    if how == "from_seq":
+        return Bitset.from_sequence(list(bits))
+    if how == "new_bits":
+        return Bitset(mk0(bits), n) if n else mk0(bits)
+    if how == "half":
+        r = bu.half_bits_not_padding(mk0(list(bits) + list(bits)))
+        return r[0]
+    raise MachineryError("unknown provenance " + how)
+
+
+def mk(bits):
+    how = _VIA[0]
+    if how is None:
+        return mk0(bits)
+    try:
+        x = _via(bits, how)
+        p = proj(x)
+        if p["n"] == len(bits) and p["v"] == list(bits):
+            return x
+    except MachineryError:
+        raise
+    except Exception:
+        pass
+    # the producing operation itself does not deliver these bits (its own direct test says so): fall back to the constructor
+    return mk0(bits)
 
 
 def proj(x):
@@ -141,7 +199,11 @@ TABLE = {
 
 
 def execute(spec):
-    return run_call(TABLE, spec)
+    _VIA[0] = spec.get("via")
+    try:
+        return run_call(TABLE, spec)
+    finally:
+        _VIA[0] = None
 
 
 # --------------------------------------------------------------------------- the domain
@@ -259,6 +321,10 @@ def run_unit(u):
             specs += pair_specs(pad(a, m), pad(b, m), PAIR_OPS_CORE)
     else:
         raise MachineryError("unknown unit " + kind)
+    # every call once more (small / big units; every fourth of the pairs) with operands that are results of other operations
+    salt = rnd.randrange(len(VIAS))
+    step = 4 if kind == "pairs" else 1
+    specs += [dict(s, via=VIAS[(i + salt) % len(VIAS)]) for i, s in enumerate(specs) if "a" in s and i % step == 0]
     return [execute(s) for s in specs]
 
 
@@ -275,6 +341,8 @@ def describe(r):
             parts.append("%s=%s" % (k, show(r[k])))
         elif k in r:
             parts.append("%s=%s" % (k, json.dumps(r[k], sort_keys=True)))
+    if r.get("via"):
+        parts.append("operands-via=%s" % r["via"])
     for k in ("bs", "n", "k", "i", "t"):
         if k in r:
             parts.append("%s=%s" % (k, r[k]))
